@@ -76,7 +76,7 @@ def per_type(ctx, config, w):
             imp = found[0][4]
             b = U.item_body(imp, opforms.OPFN[op])
             # a generated operator may delegate to Rate's own `rate * q` (checked generically above): look through it
-            ev = T.Evaluator(U, keep_tags=False, inline={RATE_MUL + "!"})
+            ev = T.Evaluator(U, keep_tags=False, inline={U.resolve_item(RATE_MUL) + "!"})
             try:
                 outs = ev.summarize(b, args=[q_, r])
             except T.Unsupported as x:
@@ -97,7 +97,7 @@ def per_type(ctx, config, w):
                 probs[0][1] if probs else "", text, "; ".join("[%s] %s" % (T.show_guard(g), T.show(x)) for g, k, x in outs)), b["span"])
             # the like-quantity ratio used is Q / Q of this very type
             divs = [f for f in ev.calls_seen if f.get("trait") == "core::ops::arith::Div" and model.ty_key(f["args"][0]) == Q]
-            deleg = [f for f in ev.calls_seen if (f.get("resolved") or {}).get("path") == RATE_MUL and len(f["args"]) == 2 and model.ty_key(f["args"][1]) == Q]
+            deleg = [f for f in ev.calls_seen if (f.get("resolved") or {}).get("path") == U.resolve_item(RATE_MUL) and len(f["args"]) == 2 and model.ty_key(f["args"][1]) == Q]
             gen_divs = [f for f in ev.calls_seen if f.get("trait") == "core::ops::arith::Div" and model.ty_key(f["args"][0]) == "$PQ"]
             ctx.ob("rate-op-ratio", inst, (len(divs) == 1 and model.ty_key(divs[0]["args"][1]) == Q and not deleg)
                    or (not divs and len(deleg) == 1 and len(gen_divs) == 1 and model.ty_key(gen_divs[0]["args"][1]) == "$PQ"),
@@ -108,7 +108,7 @@ def per_type(ctx, config, w):
         if "*" in forms and "/" in forms and forms["/"][0] is not None:
             inst = "%s/%s/div-is-mul-by-reciprocal" % (config, Q)
             rec = rate_adt([ps[2], ps[3], ps[0], ps[1]])
-            ev = T.Evaluator(U, keep_tags=False, inline={RATE_MUL + "!"})
+            ev = T.Evaluator(U, keep_tags=False, inline={U.resolve_item(RATE_MUL) + "!"})
             try:
                 outs = ev.summarize(U.item_body(forms["*"][2], "mul"), args=[q_, rec])
                 tm = one(outs)
